@@ -87,6 +87,36 @@ theorem exTM'_preimage : preimage exMax (basicSolution exTM') = [2] := by
   have hf : flags exMax = [false] := by simp [flags, tys, tyOf, lookup, exMax, isFree]
   simp [preimage, hb, hf, countF, countT, back]
 
+/-- what `into_tableau` (tolerance `1e-5`) returns for `exMax`: `x` is the first independent column, the start is already
+optimal. -/
+theorem exMax_intoTableau : intoTableau (1/100000 : ℚ) 1 10 (stdK exMaxStd) = .ok exTM' := by
+  have hr : (stdK exMaxStd).rows.map (·.coeffs) = [[1, 1]] := by simp [stdK, exMaxStd, toK]
+  have hn : (stdK exMaxStd).vars.length = 2 := rfl
+  have hm : (stdK exMaxStd).rows.length = 1 := rfl
+  unfold intoTableau
+  simp only [hr, hn, hm, Props.C14.sm0_independent]
+  simp [selectPerRow, List.range, List.range.loop, canonicalise, rowDiv, rowSubMul, stdK, exMaxStd, toK, nth, row,
+    exTM', List.modify]
+
+theorem exMax_startFacts : StartFacts (1/100000 : ℚ) 1 10 (stdK exMaxStd) := by
+  have h1 : |(1:ℚ)| = 1 := abs_one
+  have hr : (stdK exMaxStd).rows.map (·.coeffs) = [[1, 1]] := by simp [stdK, exMaxStd, toK]
+  have hn : (stdK exMaxStd).vars.length = 2 := rfl
+  have hm : (stdK exMaxStd).rows.length = 1 := rfl
+  refine Or.inl ⟨?_, ?_⟩
+  · unfold DirectStart
+    rw [hr, hn, hm, Props.C14.sm0_independent]
+    exact ⟨by simp, by simp [selectPerRow, List.range, List.range.loop]⟩
+  · rw [hr]
+    intro r hr' x hx
+    simp at hr'; subst hr'
+    simp at hx; subst hx
+    right; rw [h1]; norm_num
+
+theorem exTM'_solve : (solve (0:ℚ) 1 10 [] exTM').result = .ok () ∧ (solve (0:ℚ) 1 10 [] exTM').final = exTM' := by
+  have h1 : decide (0 > (exTM'.c.length + exTM'.a.length + 1)) = false := by decide
+  simp only [solve, solveLoop, h1, exTM'_step, and_self]
+
 theorem exTM'_value : optimalValue exTM' = 2 := by
   simp [optimalValue, exTM']
 
